@@ -173,6 +173,8 @@ def random_spec(rng, struct):
              "mu2": [u(0.0, 1.0), u(0.5, 1.5)], "sigma2": [u(0.5, 1.5)]}
     elif struct == "indep3":
         p = {"d0": [u(1.5, 3.0), u(1.2, 1.8), u(0.0, 1.0)], "d1": [u(0.5, 2.0), u(0.2, 0.6)], "d2": [u(-1.0, 1.0), u(0.5, 2.0)]}
+    elif struct == "signed2":  # wind speed and an air-sea temperature difference: the second variable takes both signs
+        p = {"d0": [u(1.5, 3.0), u(1.2, 1.8), u(0.0, 1.0)], "mu1": [u(-2.0, -0.5), u(0.1, 0.4)], "sigma1": [u(0.8, 1.6)]}
     elif struct == "fixfirst2":  # conditional_on = [None, 0]; the FIRST parameter of the conditional variable is fixed, the second dependent
         p = {"d0": [u(1.5, 3.0), u(1.2, 1.8), u(0.3, 1.0)], "mu1": [u(0.6, 1.2)], "sigma1": [u(0.2, 0.4), u(0.1, 0.3)]}
     else:
@@ -234,6 +236,11 @@ def build_model(spec):
         dd = [{"distribution": ExponentiatedWeibullDistribution(*p["d0"])},
               {"distribution": WeibullDistribution(*p["d1"])},
               {"distribution": NormalDistribution(), "conditional_on": 1, "parameters": {"mu": mu, "sigma": sg}}]
+    elif s == "signed2":
+        mu, sg = DependenceFunction(_lin2), DependenceFunction(_const1)
+        _set(mu, p["mu1"]); _set(sg, p["sigma1"])  # noqa: E702
+        dd = [{"distribution": WeibullDistribution(*p["d0"])},
+              {"distribution": NormalDistribution(), "conditional_on": 0, "parameters": {"mu": mu, "sigma": sg}}]
     elif s == "fixfirst2":
         sg = DependenceFunction(_lin2)
         _set(sg, p["sigma1"])
